@@ -58,7 +58,7 @@ ASSUMPTIONS = [
 ]
 TRUSTED = ['pbt/netsim.py (fake socket/sampler/resolver/ipset/network '
            'client/firewall plugin)']
-BUDGET = {'quick': 2000, 'thorough': 128000}
+BUDGET = {'quick': 6000, 'thorough': 128000}
 
 APP_NAMES = ['proid.web#0000000001', 'proid.web#0000000002',
              'other-p.db.main#0000000001']
